@@ -497,7 +497,14 @@ MANIFEST = dict(
           'the global context) state for ALL data, Content-Length values (any integer), buffer sizes > 0 and '
           'fragmentation schedules that the body is exactly the first Content-Length bytes, the stream is left exactly '
           'after them, and every read request is positive, at most one buffer and never reaches past Content-Length. '
-          'The hand-written model (coq/model/Body.v) is tied to /repo on every run by a differential correspondence '
+          'The Request-level glue (cached body rewound on every access, wsgi.input replaced by the buffered copy, '
+          'Request.copy, Request.__setitem__) is a second model (coq/model/ReqBody.v: op sequences over the family of '
+          'request objects descending from one request by copy()): C04_first_access_exact (after any copies and header '
+          'rewrites the first access on any object returns exactly the first Content-Length bytes and never reads '
+          'beyond), C04_cached_body_stable (afterwards every access returns the same body whatever else happens to the '
+          'family, and reads no stream), C04_copy_presents_same_body; C04_only_new_input_drops_buffered_body is proved '
+          'about the invalidation table extracted from BaseRequest._on_env_changed on every run. '
+          'The hand-written models (coq/model/Body.v, ReqBody.v) are tied to /repo on every run by a differential correspondence '
           '(extracted OCaml + vm_compute) on _body_read and Request.body, and an independent oracle searches for the '
           'failing input when a tie breaks.'),
     note=('Trusted: Coq kernel + vm_compute; extraction (ExtrOcamlBasic only); the Python harness; the stream model '
